@@ -123,8 +123,17 @@ func cmdRun(args []string) int {
 			if v, ok := in.Params["maxDigits"]; ok {
 				opt.MaxDigits, _ = strconv.Atoi(v)
 			}
+			if v, ok := in.Params["maxInstr"]; ok {
+				opt.MaxInstr, _ = strconv.ParseInt(v, 10, 64)
+			}
+			if v, ok := in.Params["maxDecisions"]; ok {
+				opt.MaxDecisions, _ = strconv.Atoi(v)
+			}
 			hr := progs[in.LevelB].RunHarnessOn(opt, pool)
 			outs[idx] = instOut{inst: in, hr: hr, secs: time.Since(t1).Seconds()}
+			if os.Getenv("VERIF_VERBOSE") != "" {
+				fmt.Printf("INSTANCE-DONE %.1fs paths=%d %s\n", time.Since(t1).Seconds(), hr.Paths, in.Label())
+			}
 		}(idx)
 	}
 	wg.Wait()
@@ -249,6 +258,8 @@ func cmdRun(args []string) int {
 					confirmed = contains(r.Failed, c.f.ID)
 				case "panic":
 					confirmed = r.Panic != "" || r.Hang
+				case "hang":
+					confirmed = r.Hang
 				}
 				if r.Hang && strings.HasPrefix(c.f.ID, "C04") {
 					confirmed = true
